@@ -165,6 +165,8 @@ def enc(v):
         return OTHER_CODE
     if isinstance(v, int) and 0 <= v < 100000:
         return v
+    if isinstance(v, float) and v == int(v) and 0 <= v < 100000:
+        return 400000 + int(v)         # FloatBase of PteraAbs.tla
     if isinstance(v, ScriptBase):
         return EXC_BASE + v.args[0]
     name = getattr(v, "__name__", None)
